@@ -324,6 +324,7 @@ func (m *lagMon) Max(from, to int64) time.Duration {
 type statusProbe struct {
 	cli     *h.Client
 	names   []string
+	absent  []string // names that must not exist at the client any more
 	mu      sync.Mutex
 	pending chan string // non-nil while a query is in flight
 }
@@ -339,6 +340,12 @@ func (s *statusProbe) allRunning() string {
 			for _, n := range s.names {
 				if ph := s.cli.ProxyPhase(n); ph != "running" {
 					ch <- fmt.Sprintf("client: %s is %q", n, ph)
+					return
+				}
+			}
+			for _, n := range s.absent {
+				if ph := s.cli.ProxyPhase(n); ph != "" {
+					ch <- fmt.Sprintf("client: %s, removed from the configuration, is still there (%q)", n, ph)
 					return
 				}
 			}
